@@ -177,6 +177,16 @@ def make_harness(shapes: list[Any], shared: bool = False, prepare=None):
             def mk(sfs):
                 return [id(p[0]) for p in T.pre_order(recipe, root, lambda pos: cls_ok(pos) and o_filter(pos), o_prune, sfs)]
 
+            # the same classes in the other mode, in the same process (no state may carry over)
+            again = list(root.gather(arg, exact_type=not ex))
+
+            def cls_ok2(pos):
+                return (type(pos[0]) in classes) if not ex else isinstance(pos[0], classes)
+
+            want2 = [id(p[0]) for p in T.pre_order(recipe, root, cls_ok2, lambda pos: False)]
+            if [id(n) for n in again] != want2:
+                scenario.update(second_call_exact_type=not ex, got_second=[type(n).__name__ for n in again], expected_second_count=len(want2))
+                e.fail("gather-depends-on-an-earlier-gather", scenario=scenario)
             got = [id(n) for n in got_nodes]
             want = mk(False)
             if got != want:
